@@ -10,6 +10,7 @@ import re
 import signal
 
 VERIF = os.path.dirname(os.path.dirname(os.path.abspath(__file__)))
+REPO = os.environ.get('VERIF_REPO', '/repo').rstrip('/')
 BUILD_ROOT = os.environ.get('VERIF_BUILD_ROOT', os.path.join(VERIF, '.build'))
 RUN_ROOT = os.environ.get('VERIF_RUN_DIR', os.path.join(VERIF, '.run', 'adhoc'))
 
@@ -54,7 +55,7 @@ def crash_fingerprint(stderr, why='died'):
         if m5:
             kind = 'not-reached:%s' % os.path.basename(m5.group(1))
     frame = ''
-    for fm in re.finditer(r'#\d+ 0x[0-9a-f]+ in (\w+) (/repo/[^\s:]+)', stderr):
+    for fm in re.finditer(r'#\d+ 0x[0-9a-f]+ in (\w+) (' + re.escape(REPO) + r'/[^\s:]+)', stderr):
         fn = fm.group(1)
         if fn.startswith('_dbus_abort') or fn.startswith('_dbus_real_assert') or fn.startswith('_dbus_warn'):
             continue
